@@ -66,6 +66,13 @@ def gen_cases(rng, tier):
                 thr.append(enc(rng.choice([max(allv) + 1, min(allv) - 1])))
             else:
                 thr.append(enc(Fraction(rng.randint(-28, 28), 8)))
+        if k % 13 == 5 and allv:
+            # a long sorted grid of thresholds (more thresholds than samples), many of them exactly on a score
+            m = rng.choice([32, 33, 40, 64, 100, 130])
+            grid = sorted(rng.choice(allv) if rng.random() < 0.5 else Fraction(rng.randint(-60, 60), 8) for _ in range(m))
+            if rng.random() < 0.3:
+                grid = grid[::-1]
+            thr = [enc(t) for t in grid]
         cases.append({"pos": [enc(x) for x in pos], "neg": [enc(x) for x in neg],
                       "ep": rng.choice([0, 0, 1, 3, 17]), "en": rng.choice([0, 0, 2, 5]),
                       "sc": sc, "ec": ec, "thr": thr, "is_sorted": k % 6 == 0,
